@@ -368,9 +368,19 @@ func CheckConc(e *Env) (int, error) {
 	nViol += out.violations
 
 	covered := 0
+	neverHit := map[string]int{}
+	var neverSample []string
+	siteTable := loadSiteTable(filepath.Join(filepath.Dir(overlay), "sites.json"))
 	for i := 1; i <= sites; i++ {
 		if hitSites[i/8]&(1<<uint(i%8)) != 0 {
 			covered++
+			continue
+		}
+		if st, ok := siteTable[i]; ok {
+			neverHit[st.File]++
+			if len(neverSample) < 400 && !strings.HasPrefix(st.File, "export_verif") && !strings.HasSuffix(st.File, "export_verif.go") {
+				neverSample = append(neverSample, fmt.Sprintf("%s:%d", st.File, st.Line))
+			}
 		}
 	}
 	cov := map[string]any{
@@ -381,25 +391,27 @@ func CheckConc(e *Env) (int, error) {
 		"samples": e.samplesOrFetch(traced, 2, func() *Job {
 			return e.concJob(bins.plain["asm"], "asm", 2_000_000, 3, sites, false, "", "-trace")
 		}),
-		"runs_with_race_detector":         raceRuns,
-		"runs_plain":                      plainRuns,
-		"operations_executed":             a.Ops,
-		"simulated_time":                  fmt.Sprintf("%d logical steps (yield points passed); no clock in this library", a.Steps),
-		"fault_kinds_fired":               a.Faults,
-		"reach_probes":                    a.Probes,
-		"policies":                        policies,
-		"yield_sites_total":               sites,
-		"yield_sites_hit":                 covered,
-		"distinct_preemption_sites":       len(preemptSites),
-		"max_distinct_site_pairs_per_run": maxPairs,
-		"distinct_schedule_signatures":    len(a.Sigs),
-		"distinct_history_digests":        len(a.Digests),
-		"freerun_fallbacks":               a.FreeRuns,
-		"runs_by_variant":                 a.Variants,
-		"runs_per_hour":                   int(float64(a.Runs) / time.Since(e.Start).Hours()),
-		"data_race_reports":               len(races),
-		"race_oracle_canary":              "before the batch: two simulated callers writing one variable under the scheduler were reported by the race detector, two callers writing private variables were not",
-		"real_vs_stub":                    "real: all of /repo with statement-level yield points inserted by go/ast through a build overlay (fiat arithmetic and the assembly run as atomic instructions), Go crypto, x/crypto, tuplehash, real goroutines, the Go race detector. stub: entropy devices; the scheduler replaces the Go scheduler's choice of who runs. model: per-call solo execution on an independent clone.",
+		"runs_with_race_detector":                         raceRuns,
+		"runs_plain":                                      plainRuns,
+		"operations_executed":                             a.Ops,
+		"simulated_time":                                  fmt.Sprintf("%d logical steps (yield points passed); no clock in this library", a.Steps),
+		"fault_kinds_fired":                               a.Faults,
+		"reach_probes":                                    a.Probes,
+		"policies":                                        policies,
+		"yield_sites_total":                               sites,
+		"yield_sites_hit":                                 covered,
+		"yield_sites_never_hit_by_file":                   neverHit,
+		"yield_sites_never_hit_sample":                    neverSample,
+		"distinct_preemption_sites":                       len(preemptSites),
+		"max_distinct_site_pairs_per_run":                 maxPairs,
+		"distinct_schedule_signatures":                    len(a.Sigs),
+		"distinct_history_digests":                        len(a.Digests),
+		"freerun_fallbacks":                               a.FreeRuns,
+		"runs_by_variant":                                 a.Variants,
+		"runs_per_hour":                                   int(float64(a.Runs) / time.Since(e.Start).Hours()),
+		"data_race_reports":                               len(races),
+		"race_oracle_canary":                              "before the batch: two simulated callers writing one variable under the scheduler were reported by the race detector, two callers writing private variables were not",
+		"real_vs_stub":                                    "real: all of /repo with statement-level yield points inserted by go/ast through a build overlay (fiat arithmetic and the assembly run as atomic instructions), Go crypto, x/crypto, tuplehash, real goroutines, the Go race detector. stub: entropy devices; the scheduler replaces the Go scheduler's choice of who runs. model: per-call solo execution on an independent clone.",
 		"violations_of_other_properties_seen_and_ignored": a.OtherProps,
 	}
 	ev := &Evidence{PropertyID: prop, Tier: e.Tier, Seed: int64(e.Seed), Level: "exploration", Coverage: cov, WallS: time.Since(e.Start).Seconds(), Violations: nViol,
@@ -555,4 +567,27 @@ func (e *Env) raceCanary(raceBin string) error {
 	}
 	Logf("race-oracle canary ok (shared variable reported, private variables silent)")
 	return nil
+}
+
+type siteInfo struct {
+	ID   int    `json:"id"`
+	File string `json:"file"`
+	Line int    `json:"line"`
+}
+
+// loadSiteTable reads the instrumenter's site table (id -> file:line).
+func loadSiteTable(path string) map[int]siteInfo {
+	out := map[int]siteInfo{}
+	b, err := os.ReadFile(path)
+	if err != nil {
+		return out
+	}
+	var l []siteInfo
+	if json.Unmarshal(b, &l) != nil {
+		return out
+	}
+	for _, s := range l {
+		out[s.ID] = s
+	}
+	return out
 }
